@@ -84,7 +84,18 @@ def trunc(x):
 BASE_NS = {"eq": eq, "isnan": isnan, "isfinite": isfinite, "isinf": isinf, "bit": bit, "iff": iff, "tok": tok, "sum32": sum32,
            "floor": math.floor, "ceil": math.ceil, "trunc": trunc, "np": np, "math": math, "len": len, "abs": abs,
            "min": min, "max": max, "int": int, "float": float, "range": range, "all": all, "any": any, "sum": sum,
-           "bool": bool, "rint": lambda x: float(np.rint(x))}
+           "bool": bool, "rint": lambda x: float(np.rint(x)), "array_of": None}
+
+
+def array_of(f, *shape):
+    """ghost array of a specification: the array whose cells are f(i, j, ...)"""
+    out = np.empty(shape, dtype=np.float64)
+    for idx in np.ndindex(*[int(s) for s in shape]):
+        out[idx] = f(*idx)
+    return out
+
+
+BASE_NS["array_of"] = array_of
 
 
 class _Rewrite(ast.NodeTransformer):
